@@ -9,7 +9,11 @@ VEC vec;
 #define CAT_(a, b) a##b
 #define CAT(a, b) CAT_(a, b)
 #define MAXPRE 8
-#define MAXPER 4
+#ifndef MAXD
+#define MAXD 3                      /* largest delta of a grow_by */
+#endif
+#define MAXPER (MAXD + 1)
+#define MAXSZ (PRE + MAXD * NT)
 /* allocator contract: a fresh block of exactly n bytes, never fails here. Blocks are bump-allocated from small static
    typed pools, one per model thread (+1 for the sequential phase), sized per scenario by spec.py (ECAP/PRECAP elements,
    EPT blocks): cbmc's cost grows with the size of every object a stored-to pointer may address, and malloc'ed objects per
@@ -34,7 +38,14 @@ static int started;
 static ELEM epool[NSL][POOLW]; static unsigned e_used[NSL];
 static unsigned eb_off[NSL][EPT + 3]; static u64 eb_req[NSL][EPT + 3]; static u8 eb_freed[NSL][EPT + 3]; static unsigned n_eb[NSL];
 #define NBLK(s) ((s) == NT ? EPT + 3 : EPT)
+#ifdef SEQ
+#define vp_cur_slot NT
+#endif
+#ifdef SEQ
+static unsigned slot(void) { return NT; }
+#else
 static unsigned slot(void) { return started ? vp_cur : NT; }
+#endif
 u8* vp_alloc_elem(u64 n) {
   unsigned s = slot(), cap = (s == NT ? PRECAP : ECAP);
   VP_ASSERT(n >= 4 && n % 4 == 0 && n <= 4 * 16, "segment allocation of a size no bounded scenario should request");
@@ -58,7 +69,11 @@ void vp_dealloc_elem(u8* p, u64 n) {
    check (never ignored), except allocate_long_table's zero fill, which the memset model clips. */
 static TENT tpool[NT][TABW]; static u8 tb_used[NT], tb_freed[NT];
 u8* vp_alloc_tab(u64 n) {
+#ifdef SEQ
+  unsigned s = 0;
+#else
   unsigned s = slot();
+#endif
   VP_ASSERT(s < NT && !tb_used[s], "HARNESS: long table allocated in the sequential phase or twice by one thread");
   VP_ASSERT(n == 64 * 8, "segment table allocation is not 64 pointers");
   __CPROVER_assume(s < NT && !tb_used[s]);
@@ -78,7 +93,12 @@ void vp_dealloc_tab(u8* p, u64 n) { VP_ASSERT(0, "segment table deallocated alth
    differs from value; while it is equal the calling model thread is parked and the call re-executed later (busy-wait) */
 ELEM* _ZN3tbb6detail2d018spin_wait_while_eqIP4ElemS4_EET_RKSt6atomicIS5_ET0_St12memory_order(TENT* loc, ELEM* value, u32 order) {
   ELEM* cur = loc->f0.f0;
+#ifdef SEQ
+  VP_ASSERT(cur != value, "a single-threaded growth call would wait forever for a segment");
+  __CPROVER_assume(cur != value);
+#else
   if (cur == value) { VP_ASSERT(started, "sequential pre-growth would wait forever"); VP_BLOCK(); }
+#endif
   return cur;
 }
 #ifdef NOLONG
@@ -140,6 +160,15 @@ void vp_gtal_done(u32 tid, u64 n) {
       VP_ASSERT(others_running(tid), "grow_to_at_least(n) returned although an element below n is neither constructed nor under construction by a running call");
   }
 }
+static unsigned n_destroyed; static int destroying;
+void vp_destroyed(u8* a) {
+  VP_ASSERT(destroying, "element destroyed during growth");
+  VP_ASSERT(in_live_block(a), "destructor run on memory outside the allocated segments");
+  n_destroyed++;
+}
+#ifdef SEQ
+static unsigned others_running(u32 tid) { return 0; }
+#else
 #define FIN(t) CAT(t, _fin)
 static unsigned others_running(u32 tid) {
   unsigned r = 0;
@@ -150,9 +179,10 @@ static unsigned others_running(u32 tid) {
 #endif
   return r;
 }
+#endif
 static u64 arg_of(int kind) {
-  if (kind == 0) return vp_nd_range(0, 3);
-  if (kind == 2) return vp_nd_range(PRE > 1 ? PRE - 1 : 0, PRE + 3);
+  if (kind == 0) return vp_nd_range(0, MAXD);
+  if (kind == 2) return vp_nd_range(PRE > 1 ? PRE - 1 : 0, PRE + MAXD);
   return 0;
 }
 #ifndef PROBE
@@ -172,6 +202,20 @@ int main(void) {
   };
   u64 arg[3];
   for (int t = 0; t < NT; t++) arg[t] = arg_of(kind[t]);
+#ifdef SEQ
+  /* concrete operation sequence executed by one thread; after every operation all earlier element addresses must be unchanged */
+  static u8* seen[MAXSZ + 1];
+  for (int t = 0; t < NT; t++) {
+    vp_seq_op(&vec, t, kind[t], arg[t]);
+    u64 cur = vp_claimed(&vec);
+    for (u64 i = 0; i < MAXSZ; i++) if (i < cur) {
+      u8* a = vp_at(&vec, i);
+      if (seen[i]) VP_ASSERT(seen[i] == a, "address of an element changed when the vector grew");
+      seen[i] = a;
+    }
+  }
+  int vp_deadlock = 0, vp_unfinished = 0;
+#else
   CAT(TA, _start)(&vec, 0, arg[0], PROBE); CAT(TB, _start)(&vec, 1, arg[1], PROBE);
 #if NT == 3
   CAT(TC, _start)(&vec, 2, arg[2], PROBE);
@@ -187,6 +231,7 @@ int main(void) {
 #else
   VP_QUIESCE2(TA, TB)
 #endif
+#endif
   VP_ASSERT(!vp_deadlock, "growth calls wait forever (every unfinished thread is spinning and nothing changes)");
   __CPROVER_assume(!vp_unfinished);
 #ifndef SKIP_FINAL
@@ -195,7 +240,7 @@ int main(void) {
   u64 total = 0, lo = PRE;
   for (int t = 0; t < NT; t++) { VP_ASSERT(returned[t], "call did not return an iterator"); total += log_n[t]; }
   VP_ASSERT(size == PRE + total, "final size differs from pre-grown size + number of elements constructed");
-  VP_ASSERT(size <= PRE + 3 * NT, "size beyond what was requested");
+  VP_ASSERT(size <= MAXSZ, "size beyond what was requested");
   for (int t = 0; t < NT; t++) {
     if (kind[t] == 0) VP_ASSERT(log_n[t] == arg[t], "grow_by(delta) did not construct exactly delta elements");
     if (kind[t] == 1) VP_ASSERT(log_n[t] == 1, "push_back did not construct exactly one element");
@@ -206,7 +251,7 @@ int main(void) {
     }
     if (kind[t] == 0 && arg[t] == 0) VP_ASSERT(ret_idx[t] <= size, "grow_by(0) returned an iterator beyond the end");
   }
-  for (u64 i = 0; i < PRE + 3 * NT; i++) if (i < size) {
+  for (u64 i = 0; i < MAXSZ; i++) if (i < size) {
     u8* a = vp_at(&vec, i);
     VP_ASSERT(in_live_block(a), "element address outside the allocated segments");
     if (i < PRE) {
@@ -224,10 +269,20 @@ int main(void) {
       for (unsigned k = 0; k < MAXPER; k++) if (k < log_n[t] && log_addr[t][k] == a) ctor = t;
     }
     VP_ASSERT(owners <= 1, "two calls returned overlapping index ranges");
+    if (ctor < 0) continue;
     if (kind[ctor] != 2) VP_ASSERT(owners == 1 && owner == ctor, "element constructed by a call whose returned range does not contain it");
     else VP_ASSERT(owners == 0, "element of a returned range constructed by another call");
     VP_ASSERT(vp_val(&vec, i) == 100 + ctor, "element does not hold the requested value");
   }
+#ifdef SEQ
+  /* the vector stays destructible: every element destroyed, every segment and table released exactly once */
+  destroying = 1; vp_destroy(&vec);
+  VP_ASSERT(n_destroyed == size, "destructor did not run once per element");
+  for (unsigned s = 0; s < NSL; s++) for (unsigned b = 0; b < EPT + 3; b++) if (b < n_eb[s]) VP_ASSERT(eb_freed[s][b], "segment leaked by the destructor");
+#ifndef NOLONG
+  for (unsigned s = 0; s < NT; s++) if (tb_used[s]) VP_ASSERT(tb_freed[s], "long table leaked by the destructor");
+#endif
+#endif
 #endif
   VP_REACHED();
   return 0;
